@@ -117,6 +117,9 @@ def run_history(ctx, params, script_kw, prop, class_name):
     for k in range(params["calls"]):
         ev = events[ctx.choose(len(events), f"call{k}")]
         del script.log[:]
+        if "call_budgets" in params:
+            script.budget = params["call_budgets"][k]
+            script.taken = []
         out = outcome_of(lambda: sm.send(ev), sm)
         acc = Acceptor(am, script.log, rtc=rtc, allow=allow, is_async=is_async)
         evs = (["__initial__"] if pending_initial else []) + [ev]
